@@ -19,7 +19,7 @@ def finite(x):
 
 class C03(Check):
     pid = "C03"
-    lean_modules = ["MTProps.C03"]
+    lean_modules = ["MTProps.C03", "MTProps.CodeRun"]
 
     def body(self):
         rng = self.rng
@@ -82,7 +82,7 @@ class C03(Check):
 
 class C04(Check):
     pid = "C04"
-    lean_modules = ["MTProps.C04"]
+    lean_modules = ["MTProps.C04", "MTProps.CodeRun"]
 
     def body(self):
         rng = self.rng
@@ -336,7 +336,7 @@ class C05(Check):
 
 class C07(Check):
     pid = "C07"
-    lean_modules = ["MTProps.C07"]
+    lean_modules = ["MTProps.C07", "MTProps.CodeRun"]
 
     def body(self):
         rng = self.rng
@@ -988,7 +988,7 @@ C15.cli_rejections = _c15_cli_rejections
 
 class C17(Check):
     pid = "C17"
-    lean_modules = ["MTProps.C17"]
+    lean_modules = ["MTProps.C17", "MTProps.CodeRun"]
 
     def body(self):
         rng = self.rng
